@@ -69,6 +69,7 @@ type Contract struct {
 	Lets      []*LetDef // `let name = expr`: post-state abbreviations usable in ensures clauses
 	Sites     []*CallSiteSpec
 	Unfold    []string // callees (key suffixes) whose bodies are executed at their call sites in this function
+	Light     []string // callees (key suffixes) of which only the untagged postconditions are assumed at their call sites in this function
 	Modifies  []*Expr
 	ModAll    bool // modifies *
 	HasMod    bool
@@ -570,7 +571,7 @@ func (p *parser) primary() (*Expr, error) {
 // file structure
 
 var clauseKeywords = map[string]bool{
-	"contract": true, "guarded": true, "let": true, "callsite": true, "nocall": true, "assert": true, "unfold": true, "assume": true, "requires": true, "ensures": true, "modifies": true,
+	"contract": true, "guarded": true, "let": true, "callsite": true, "nocall": true, "assert": true, "unfold": true, "light": true, "assume": true, "requires": true, "ensures": true, "modifies": true,
 	"invariant": true, "decreases": true, "loop": true, "spec": true, "axiom": true, "ghost": true,
 	"valid": true, "inline": true, "pure": true, "wraps": true, "maypanic": true, "theory": true,
 	"package": true, "import": true, "opaque": true, "split": true, "noeffect": true, "trusted": true,
@@ -697,6 +698,14 @@ func ParseSpecFile(path, defaultPkg string) (*SpecFile, error) {
 			c.File, c.Line = path, it.line
 			sf.Contracts = append(sf.Contracts, c)
 			cur, curLoop, curCase, curSite = c, nil, nil, nil
+		case "light":
+			// light <callee>...: at calls of these callees assume only the clauses that carry no [Cxx]
+			// tag (assuming less is sound; it keeps a heavy byte-level contract out of a caller that
+			// only needs the callee's stream effects)
+			if cur == nil {
+				return nil, fail(fmt.Errorf("light outside contract"))
+			}
+			cur.Light = append(cur.Light, strings.Fields(rest)...)
 		case "unfold":
 			if cur == nil {
 				return nil, fail(fmt.Errorf("unfold outside contract"))
